@@ -384,3 +384,42 @@ B(["C03", "C05", "C18", "C04"], "number scan written peek-then-commit", LX,
   "                ):\n                    candidate = contextual_token_value + source[0]\n"
   "                    source.popleft()\n"
   "                    contextual_token_value = candidate\n")
+
+# helper-extraction twins (interprocedural precision)
+_HP = ('def vy_print(lhs, end="\\n", ctx=None):',
+       'def _host_print(text, end):\n    print(text, end=end)\n\n\n'
+       'def vy_print(lhs, end="\\n", ctx=None):')
+B(["C19"], "print moved into a helper called only offline", E,
+  lambda s: s.replace(*_HP).replace(
+      "        else:\n            print(lhs, end=end)",
+      "        else:\n            _host_print(lhs, end)"), None)
+V("C19", "print helper called unguarded", E,
+  lambda s: s.replace(*_HP).replace(
+      "        else:\n            print(lhs, end=end)",
+      "        _host_print(lhs, end)"), None, "C19.no-host-output-online")
+_BR = ("def parse(\n", "def _is_break(tok):\n    return tok.value == "
+       "BREAK_CHARACTER\n\n\ndef parse(\n")
+B(["C03"], "break test extracted into a helper, guard kept", P,
+  lambda s: s.replace(*_BR, 1).replace(
+      "            head.name == lexer.TokenType.GENERAL\n"
+      "            and head.value == BREAK_CHARACTER",
+      "            head.name == lexer.TokenType.GENERAL\n"
+      "            and _is_break(head)"), None)
+V("C03", "break test extracted into a helper, guard lost", P,
+  lambda s: s.replace(*_BR, 1).replace(
+      "            head.name == lexer.TokenType.GENERAL\n"
+      "            and head.value == BREAK_CHARACTER",
+      "            _is_break(head)"), None, "C03.syntax-test-kind-guarded")
+_ID = ("def transpile(\n", "def _ident(text):\n    return re.sub("
+       "\"[^A-Za-z0-9_]\", \"\", text)\n\n\ndef transpile(\n")
+B(["C18", "C02"], "sanitiser extracted into a helper", T,
+  lambda s: s.replace(*_ID, 1).replace(
+      '        var = re.sub("[^A-Za-z0-9_]", "", struct.name)\n\n'
+      '        return indent_str(\n            f"stack += VAR_',
+      '        var = _ident(struct.name)\n\n'
+      '        return indent_str(\n            f"stack += VAR_'), None)
+
+# benign refactorings written by independent sub-agents (tools/benign.py)
+for _p in sorted(glob.glob(os.path.join(HERE, "benign", "*", "patch.diff"))):
+    CASES.append((ALL, "benign/agent/" + os.path.basename(os.path.dirname(_p)),
+                  "<patch>", _p, None, "silent", None))
